@@ -721,10 +721,6 @@ func (ts *Service) handleCreateTask(w http.ResponseWriter, r *http.Request) {
 			task.Type = client.BatchTask
 		}
 		task.TICKscript = template.TICKscript
-		if err := ts.templates.AssociateTask(task.TemplateID, newTask.ID); err != nil {
-			httpd.HttpError(w, fmt.Sprintf("failed to associate task with template: %s", err), true, http.StatusBadRequest)
-			return
-		}
 	} else {
 		// Set task type
 		switch task.Type {
@@ -826,6 +822,15 @@ func (ts *Service) handleCreateTask(w http.ResponseWriter, r *http.Request) {
 	if err != nil {
 		httpd.HttpError(w, err.Error(), true, http.StatusInternalServerError)
 		return
+	}
+	// Associate the task with its template only once the task exists,
+	// a rejected request must not leave an association behind.
+	if newTask.TemplateID != "" {
+		if err := ts.templates.AssociateTask(newTask.TemplateID, newTask.ID); err != nil {
+			ts.tasks.Delete(newTask.ID)
+			httpd.HttpError(w, fmt.Sprintf("failed to associate task with template: %s", err), true, http.StatusInternalServerError)
+			return
+		}
 	}
 
 	// Count new task
